@@ -24,8 +24,16 @@ def check(ctx):
     ctx.check(m is not None and lin_equal(m["n"], pat("self.entries + 1")), "C26.used-range", o.site if o else comp.site, "POA.used.shape", found=tstr(o.ctor) if o else "none", required="used counter: Signal(range(entries + 1))")
     if m is None:
         return
+    from . import ranges
+
+    ranges.layout_field_range(ctx, "C26.used-range", comp.site, "POA.order.used-field", comp.init_attr("order"), "o", "used", "self.entries + 1", "the reported count can be entries")
     t = decision_table(ex, used, sync=True)
     plain = [w for w in t.writers if w.guard is True]
+    # intermediate signals on the way to the next count hold 0..entries as well
+    for w_ in plain:
+        for x in subterms(w_.rhs):
+            if x[0] == "obj" and ex.obj(x) is not None and ex.obj(x).ctor[0] == "call" and ex.obj(x).ctor[1] == ("n", "Signal") and any(lin_equal(resolve_comb(ex, x, 1), ("op", "+", used, a)) for a in (pat("self.alloc.run"),)):
+                ranges.signal_range(ctx, "C26.used-range", ex.obj(x).site, "POA.incremented-count.shape", ex.obj(x).ctor, "self.entries + 1", "used + 1 can be entries")
     want = ("op", "-", ("op", "+", used, pat("self.alloc.run")), pat("self.free_idx.run"))
     okp = len(plain) == 1 and lin_equal(resolve_comb(ex, plain[0].rhs), want)
     ctx.check(okp, "C26.used-update", plain[0].fact.site if plain else comp.site, "POA.used'", found=lin_str(to_lin(resolve_comb(ex, plain[0].rhs))) if plain else "none", required="used' = used + alloc.run - free_idx.run")
